@@ -1,6 +1,7 @@
 package in_toto
 
 import (
+	"bytes"
 	"context"
 	"encoding/base64"
 	"encoding/json"
@@ -47,6 +48,14 @@ func (e *Envelope) SetPayload(payload any) error {
 		return err
 	}
 
+	// Canonical JSON leaves control characters in strings unescaped, which no
+	// JSON parser (including loadPayload) accepts. Escape them in that case.
+	if !json.Valid(encodedBytes) {
+		if encodedBytes, err = encodeJSONSortedKeys(payload); err != nil {
+			return err
+		}
+	}
+
 	e.payload = payload
 	e.envelope = &dsse.Envelope{
 		Payload:     base64.StdEncoding.EncodeToString(encodedBytes),
@@ -57,6 +66,28 @@ func (e *Envelope) SetPayload(payload any) error {
 	}
 
 	return nil
+}
+
+// encodeJSONSortedKeys serialises obj like canonical JSON (sorted keys, no
+// insignificant whitespace) but with standard JSON string escaping.
+func encodeJSONSortedKeys(obj any) ([]byte, error) {
+	data, err := json.Marshal(obj)
+	if err != nil {
+		return nil, err
+	}
+	var generic any
+	dec := json.NewDecoder(bytes.NewReader(data))
+	dec.UseNumber()
+	if err := dec.Decode(&generic); err != nil {
+		return nil, err
+	}
+	var buf bytes.Buffer
+	enc := json.NewEncoder(&buf)
+	enc.SetEscapeHTML(false)
+	if err := enc.Encode(generic); err != nil {
+		return nil, err
+	}
+	return bytes.TrimSuffix(buf.Bytes(), []byte("\n")), nil
 }
 
 func (e *Envelope) GetPayload() any {
